@@ -49,6 +49,12 @@ CHECKS = {
  "C16": dict(cat="model_checking", engine="C", technique="explicit-state BFS to closure over (buffer, remaining source chunks) states of the real BufferedByteReceiveStream rebuilt through its public API, relational reference oracle on every transition; bounded-exhaustive enumeration for the text streams",
    text="Initial states: every byte string over {a,b} up to length 5 (thorough 7) under every chunking, for a byte stream honouring max_bytes and an object stream of bytes; transitions receive(n), receive_exactly(n), receive_until(delim,max), feed_data(x) for small n/delimiters/max, BFS to closure, each transition executed on a fresh real object and checked against the relation on buffer+source (prefix, 1..n bytes, exactly n or IncompleteRead, delimiter rules, failed calls consume nothing); path-independence of op sequences on one live object; text: all strings of <=3-4 code points over {a, e-acute, euro, emoji} x 5 encodings x every split (short encodings) / every 2- and 3-way split (long ones), and TextSendStream->TextReceiveStream identity for every cut of the string.",
    note="Trusted: the in-memory source streams written for the check (never suspend, never deliver empty chunks); random longer inputs are not sampled (different family)."),
+ "C08": dict(cat="exploration", engine="D", technique="exhaustive enumeration of the finite operation x no-wait-state x cancellation-config x loop matrix; each cell is one deterministic scripted run of the real code (virtual loop stock/eager, real asyncio stock/eager, uvloop)",
+   text="Every cell of (operation that can complete without waiting) x {open, cancelled by self, cancelled ancestor, cancelled ancestor behind a shield, shielded-and-cancelled scope} x 5 loop configurations: cancelled => raises the cancellation and the primitive's public state is unchanged (Condition.wait keeps the lock, thread function not started); otherwise a callback queued just before the call has run when it returns (fast_acquire exempt) and the effect is visible; all itertools functions over empty/singleton/longer sync sources and empty async sources.",
+   note="Trusted: each cell has a single schedule (no waiting involved); reduce() cells are limited to inputs for which the user callback is not invoked; blocking states belong to C03."),
+ "C19": dict(cat="exploration", engine="D", technique="bounded-exhaustive differential enumeration against CPython's itertools/functools; tee() consumers by stateless exhaustive schedule exploration on the virtual loop",
+   text="All 20 itertools functions and reduce: every element sequence over {0,1,2} up to length 3 (thorough 4) as list and as async iterable x every parameter from {-1,0,1,2,3,5,None} (including invalid ones) x fixed callback menus; result list or exception class must equal the stdlib's. tee(): 2-3 consumers x 1-3 elements with consumers and the async source released by gates placed at every scheduling point: every consumer sees the whole sequence, the source is pulled once per element.",
+   note="Trusted: CPython 3.12 itertools/functools as reference (batched(strict=) and list-valued groupby against 6-line references); random longer inputs not sampled."),
 }
 
 def main():
@@ -78,6 +84,7 @@ def main():
                   "baseline_off_cmd": "python3 /verif/tools/baseline.py /repo -n 0", "source_commits": [], "add_only": True},
         "engines": [
             {"name": "A", "path": "mc/vloop.py mc/explore.py mc/dsl.py", "serves_properties": [p for p in props if CHECKS.get(p, {}).get("engine") == "A"], "kind_free_text": "stateless DFS schedule explorer over a virtual asyncio loop"},
+            {"name": "D", "path": "mc/families/c08_matrix.py mc/families/c19_itertools.py mc/families/c16_buffered.py", "serves_properties": [p for p in props if CHECKS.get(p, {}).get("engine") == "D"], "kind_free_text": "bounded-exhaustive enumeration of inputs / operation matrices against reference implementations"},
             {"name": "C", "path": "mc/bfs.py mc/nspec.py", "serves_properties": [p for p in props if CHECKS.get(p, {}).get("engine") == "C"], "kind_free_text": "explicit-state BFS over quiescent implementation states with reference automata"},
         ],
         "checks": checks,
